@@ -583,14 +583,100 @@ func checkGetInfo(e *Env, p *load.Program) {
 		r.Unknown("E4.getinfo", "GetInfo", "", "function GetInfo not found")
 		return
 	}
-	var lks []*ssa.Lookup
-	for _, b := range fn.Blocks {
-		for _, in := range b.Instrs {
-			if l, ok := in.(*ssa.Lookup); ok {
-				if g, ok := derefGlobal(l.X); ok && g.Name() == "arches" {
-					lks = append(lks, l)
+	findLookups := func(f *ssa.Function) []*ssa.Lookup {
+		var out []*ssa.Lookup
+		for _, b := range f.Blocks {
+			for _, in := range b.Instrs {
+				if l, ok := in.(*ssa.Lookup); ok {
+					if g, ok := derefGlobal(l.X); ok && g.Name() == "arches" {
+						out = append(out, l)
+					}
 				}
 			}
+		}
+		return out
+	}
+	lks := findLookups(fn)
+	if len(lks) == 0 {
+		// GetInfo as a dispatcher: every return hands on both results of one helper of the package that receives the key
+		// (`return lookup(runtime.GOARCH)`, `return lookup(normalize(name))`): the helper is the lookup function, and what
+		// GetInfo passes must be an admissible key
+		var helper *ssa.Function
+		deleg := true
+		var keys []ssa.Value
+		for _, ret := range flow.Returns(fn) {
+			rs := flow.RetResults(ret)
+			e0, ok0 := rs[0].(*ssa.Extract)
+			e1, ok1 := rs[len(rs)-1].(*ssa.Extract)
+			if len(rs) != 2 || !ok0 || !ok1 || e0.Tuple != e1.Tuple {
+				deleg = false
+				break
+			}
+			c, ok := e0.Tuple.(*ssa.Call)
+			h := (*ssa.Function)(nil)
+			if ok {
+				h = flow.Callee(c)
+			}
+			if h == nil || h.Pkg == nil || h.Pkg.Pkg.Path() != load.PkgArch || len(h.Params) != 1 || len(c.Call.Args) != 1 || (helper != nil && helper != h) {
+				deleg = false
+				break
+			}
+			helper = h
+			keys = append(keys, c.Call.Args[0])
+		}
+		if deleg && helper != nil && len(findLookups(helper)) > 0 {
+			for i, k := range keys {
+				why := ""
+				var adm func(v ssa.Value, depth int) bool
+				adm = func(v ssa.Value, depth int) bool {
+					if depth > 5 {
+						return false
+					}
+					switch x := v.(type) {
+					case *ssa.Parameter:
+						return x == fn.Params[0]
+					case *ssa.Const:
+						sv, ok := flow.ConstString(x)
+						return ok && sv == p.GOARCH
+					case *ssa.Phi:
+						for _, ed := range x.Edges {
+							if !adm(ed, depth+1) {
+								return false
+							}
+						}
+						return true
+					case *ssa.Call:
+						if flow.CalleeIs(x, "strings", "ToLower") && len(x.Call.Args) == 1 {
+							return adm(x.Call.Args[0], depth+1)
+						}
+						h := flow.Callee(x)
+						if h != nil && h.Pkg != nil && h.Pkg.Pkg.Path() == load.PkgArch && len(h.Blocks) > 0 && len(h.Params) == 1 && len(x.Call.Args) == 1 && h.Signature.Results().Len() == 1 {
+							if !adm(x.Call.Args[0], depth+1) {
+								return false
+							}
+							// the helper's result is its parameter or its lower-case form
+							for _, ret := range flow.Returns(h) {
+								rv := flow.RetResults(ret)[0]
+								if rv == ssa.Value(h.Params[0]) {
+									continue
+								}
+								if tc, ok := rv.(*ssa.Call); ok && flow.CalleeIs(tc, "strings", "ToLower") && tc.Call.Args[0] == ssa.Value(h.Params[0]) {
+									continue
+								}
+								why = "the key is computed by " + h.Name()
+								return false
+							}
+							return true
+						}
+						why = "the key is computed by " + calleeName(x)
+					}
+					return false
+				}
+				r.Check(adm(k, 0), "E4.getinfo", fmt.Sprintf("GetInfo/dispatch-key#%d", i), p.Pos(fn.Pos()), "GetInfo hands the name, its lower-case form or runtime.GOARCH to the lookup function",
+					"GetInfo hands the lookup function a key that is not the name, its lower-case form or runtime.GOARCH ("+why+")")
+			}
+			fn = helper
+			lks = findLookups(fn)
 		}
 	}
 	if len(lks) == 0 {
@@ -693,6 +779,9 @@ func checkGetInfo(e *Env, p *load.Program) {
 				if ok && isLenOfField(pr.X, val, "SyscallNames") && pr.NonZero() {
 					lenOK = true
 				}
+				if nonEmptyTableHelper(c, val) {
+					lenOK = true
+				}
 			}
 			detail = fmt.Sprintf("found-edge=%v len-guard=%v", fok && fpol, lenOK)
 			if fok && fpol && lenOK {
@@ -753,6 +842,26 @@ func derefGlobal(v ssa.Value) (*ssa.Global, bool) {
 		return g, ok
 	}
 	return nil, false
+}
+
+// nonEmptyTableHelper: the condition is `base.method()` (with the polarity that makes it true) for a one-block boolean method
+// of the package that returns `len(recv.SyscallNames) > 0` (`info.implemented()`).
+func nonEmptyTableHelper(c flow.Cond, base ssa.Value) bool {
+	cn := flow.Norm(c)
+	call, ok := cn.V.(*ssa.Call)
+	if !ok || !cn.Pol || len(call.Call.Args) != 1 || call.Call.Args[0] != base {
+		return false
+	}
+	h := call.Call.StaticCallee()
+	if h == nil || len(h.Blocks) != 1 || len(h.Params) != 1 || h.Pkg == nil || h.Pkg.Pkg.Path() != load.PkgArch {
+		return false
+	}
+	rets := flow.Returns(h)
+	if len(rets) != 1 {
+		return false
+	}
+	pr, ok := flow.AsIntPred(flow.RetResults(rets[0])[0], true)
+	return ok && isLenOfField(pr.X, h.Params[0], "SyscallNames") && pr.NonZero()
 }
 
 // isLenOfField: v == len(*(&base.field))
